@@ -20,7 +20,8 @@ PID = "C12"
 GUARD = "runs_ok: every run of empty rows (columns) is at most 60 (20); no_dups: no duplicate header"
 MODELLED = ("get_excel_column_headers, get_excel_rows, trim_trailing_empty, is_empty, xlsx_value_to_str (coq/Model/Backends.v). "
             "The Markdown reader (_md_table_to_ss_structure, _md_strp_cell, the MD_ patterns) is modelled in coq/Model/Md.v (patterns and function texts pinned). "
-            "openpyxl/xlrd deliver the grid; csv parsing, file-type dispatch and delivery channels are decided on the "
+            "csv_to_dict's sheet/header/row state machine is modelled in coq/Model/CsvBook.v over the RFC 4180 reader of Spec/Csv.v (that csv.reader implements RFC 4180 on these texts is checked by op C.csv_parse of C09). "
+            "openpyxl/xlrd deliver the grid; file-type dispatch and delivery channels are decided on the "
             "implementation by the cross-container oracle (testing); .xls is exercised through duck-typed xlrd sheets injected at "
             "xlrd_open (no .xls writer exists in this sandbox)")
 ASSUMPTIONS = ["str(float) is CPython's shortest round-trip repr (oracle, not modelled)",
@@ -208,9 +209,62 @@ class MdOp(Op):
         return cases
 
 
+CSV_CELLS = ["type", "name", "label", "text", "q1", "A b", "", " ", "x", " pad ", "1", "survey", "é", "a=b", "\u00a0", "\tt"]
+CSV_SHEETS = ["survey", "choices", "settings", "Survey", "notes", "entities", "external_choices", "osm", "x y", "", " survey", "survey ", "sheet_names", "survey_header", "SURVEY"]
+
+
+class CsvBookOp(Op):
+    """csv_to_dict's sheet/header/row state machine (over the rows csv.reader delivers) against Model/CsvBook.v"""
+    name = "B.csv_book"
+    imports = ["PX.Model.Warnings", "PX.Model.CsvBook"]
+    fn = "fun rows => show_book (csv_book lower_ascii rows)"
+    in_ty = "list (list (list N))"
+    n_quick, n_thorough = 400, 4000
+
+    def generate(self, rng, n):
+        import csv
+        from io import StringIO
+        from pyxform.xls2json_backends import csv_to_dict
+        from pyxform.errors import PyXFormError
+
+        def line():
+            k = rng.random()
+            if k < 0.05:
+                return rng.choice(["", " ", ",", ",,"])
+            if k < 0.3:
+                return rng.choice(CSV_SHEETS) + rng.choice(["", "", ",", ",a", ", "])
+            return rng.choice(["", "", "", " ", "x"]) + "," + ",".join(rng.choice(CSV_CELLS) for _ in range(rng.randint(0, 5)))
+
+        def show(d):
+            out = ""
+            for k, v in d.items():
+                out += k + "\x02"
+                if k == "sheet_names":
+                    out += "N" + "\x01".join(v)
+                elif k.endswith("_header"):
+                    out += "H" + ("\x01".join(v[0].keys()) if v else "")
+                else:
+                    out += "R" + "".join("".join(f"{a}={b}\x01" for a, b in r.items()) + "\x03" for r in v)
+                out += "\x04"
+            return out
+        cases = []
+        tries = 0
+        while len(cases) < n and tries < 10 * n:
+            tries += 1
+            text = "\n".join(line() for _ in range(rng.randint(1, 8))) + "\n"
+            try:
+                d = csv_to_dict(text)
+            except PyXFormError:
+                continue
+            rows = list(csv.reader(StringIO(text, newline="")))
+            cases.append({"coq": clist([clist([cstr(c) for c in r], "(list N)") for r in rows], "(list (list N))"), "expected": show(d), "desc": {"csv": text},
+                          "class": f"{min(len(d['sheet_names']), 3)} sheets", "nontrivial": any(isinstance(v, list) and v and k != "sheet_names" for k, v in d.items())})
+        return cases
+
+
 def ops(tier):
     check_space_table()
-    return [HeadersOp(), RowsOp(), CellOp(), MdOp()]
+    return [HeadersOp(), RowsOp(), CellOp(), MdOp(), CsvBookOp()]
 
 
 # ---- direct oracle: the same workbook through every container and channel ----------------------------
